@@ -50,6 +50,11 @@ int main(int argc, char **argv) {
     setenv("TZ", "UTC", 1);
     setenv("VERIF_ENV_A", "alpha", 1);
     setenv("VERIF_ENV_LONG", "the quick brown fox jumps over the lazy dog 0123456789", 1);
+    {
+        std::string huge;
+        for (int i = 0; i < 25; i++) huge += "/opt/verif/some/long/path/element-" + std::to_string(i) + ":";
+        setenv("VERIF_ENV_HUGE", huge.c_str(), 1); // ~900 bytes: beyond any small stack buffer
+    }
     setenv("TMPDIR", "/tmp", 1);
     setvbuf(stdout, nullptr, _IOLBF, 0);
     if (a.mode == "batch") {
